@@ -116,6 +116,35 @@ def run(ctx):
                 got = None if info["best"] is None else info["best"][mode[1]]
                 if got != exp or (info["best"] is not None and info["best"] not in seq[1]):
                     viol.append(dict(case, kind="mp", detail=f"distributed optimisation returned {info['best']} but the optimum value is {exp}"))
+    # distributed optimisation sweep: every variable as objective, both directions, 1-3 workers; the value returned through
+    # the real parent (one canonical delivery order: the optimum cannot depend on it, C11_optimize_best) must be the brute-force
+    # optimum, and each worker's stream must end with what the model's `optimize` returns on that sub-problem
+    import oracle
+    n_opt = 60 if ctx["tier"] == "quick" else 1500
+    sub_reqs = []
+    done = 0
+    while done < n_opt:
+        prob, theme = ce.gen_problem(rng)
+        exp = oracle.problem_solutions(prob, limit_size=20000)
+        if exp is None:
+            continue
+        done += 1
+        for ov in range(len(prob.idx)):
+            for direction in ("min", "max"):
+                k = rng.randint(1, 3)
+                v = rng.randrange(len(prob.idx))
+                impl, req, info = mp_case(prob, k, v, lambda c: [("M", i) for i in mpfake.interleavings(c, limit=1)[0]], (direction, ov), rng)
+                report.cov["evaluations"] += 1
+                report.count("optimize_sweep", direction)
+                case = {"problem": prob.to_json(), "k": k, "v": v, "mode": [direction, ov]}
+                vals = [s_[ov] for s_ in exp]
+                target = None if not vals else (min(vals) if direction == "min" else max(vals))
+                got = None if info["best"] is None else info["best"][ov]
+                if info["raised"] or got != target or (info["best"] is not None and info["best"] not in exp):
+                    viol.append(dict(case, kind="mp-opt", detail=f"distributed {direction}imisation of variable {ov} over {info['k']} workers returned {info['best']} (value {got}); the optimum over all solutions is {target}"))
+                if target is not None:
+                    report.nontrivial(req)
+                reqs.append((req, impl, case))
     answers = nv.Model().ask([q for q, _, _ in reqs])
     for (q, impl, case), ans in zip(reqs, answers):
         if not compare(impl, ans):
